@@ -61,9 +61,11 @@ pub enum Hostile {
     EarlyEof,
     /// something that is not a directory is in the way (mkdir)
     Eexist,
+    /// write accepts nothing and reports Ok(0) (a target that cannot take more bytes)
+    WriteZero,
 }
 
-pub const HOSTILES: [Hostile; 8] = [
+pub const HOSTILES: [Hostile; 9] = [
     Hostile::Eio,
     Hostile::Enoent,
     Hostile::Eacces,
@@ -72,6 +74,7 @@ pub const HOSTILES: [Hostile; 8] = [
     Hostile::Enospc,
     Hostile::EarlyEof,
     Hostile::Eexist,
+    Hostile::WriteZero,
 ];
 
 impl Hostile {
@@ -84,6 +87,7 @@ impl Hostile {
             Hostile::Emfile => libc::EMFILE,
             Hostile::Enospc => libc::ENOSPC,
             Hostile::Eexist => libc::EEXIST,
+            Hostile::WriteZero => libc::ENOSPC,
         };
         io::Error::from_raw_os_error(code)
     }
@@ -206,7 +210,7 @@ pub const DONE_NAMES: [&str; 8] = [
 pub struct Stats {
     /// fired[call][done]
     pub fired: [[u64; 8]; 10],
-    pub hostile_fired: [u64; 8],
+    pub hostile_fired: [u64; 9],
     pub steps: u64,
     pub sched_hash: u64,
     /// a short read/write or EINTR happened while the destination buffer was <= 16 bytes
@@ -218,7 +222,7 @@ impl Default for Stats {
     fn default() -> Self {
         Stats {
             fired: [[0; 8]; 10],
-            hostile_fired: [0; 8],
+            hostile_fired: [0; 9],
             steps: 0,
             sched_hash: FNV_INIT,
             split_small: 0,
@@ -1050,7 +1054,11 @@ impl Backend for SimFs {
         };
         let what = || format!("{} @{} len {}", lossy(&path), pos, blen);
         if let Some(h) = hostile {
-            return Err(i.hostile(Call::Write, h, what));
+            let e = i.hostile(Call::Write, h, what);
+            if h == Hostile::WriteZero && blen > 0 {
+                return Ok(0);
+            }
+            return Err(e);
         }
         let data = match data {
             Some(d) if can_write => d,
